@@ -535,3 +535,30 @@ mut("c18-esop-shared-cube-not-charged", "C18",
     ("src/sop/optim/mip.rs",
      "    fn add_cover_constraints(&mut self) {\n        for j in 0..self.functions.len() {\n            for i in 0..self.cubes.len() {\n                self.constraints\n                    .push((self.cube_used_in_fn[i][j] - self.cube_used[i]).leq(0));\n            }\n        }\n    }\n\n    /// Add a xor constraint",
      "    fn add_cover_constraints(&mut self) {\n        for j in 0..std::cmp::min(1, self.functions.len()) {\n            for i in 0..self.cubes.len() {\n                self.constraints\n                    .push((self.cube_used_in_fn[i][j] - self.cube_used[i]).leq(0));\n            }\n        }\n    }\n\n    /// Add a xor constraint"))
+
+# ---------------------------------------------------------------- C19
+mut("c19-only-first-words-filled", "C19",
+    "fill_random fills only the first 4 words of larger tables",
+    ("src/operations.rs",
+     "    for t in table {\n        *t = rand::thread_rng().next_u64() & num_vars_mask(num_vars);",
+     "    for t in table.iter_mut().take(4) {\n        *t = rand::thread_rng().next_u64() & num_vars_mask(num_vars);"))
+mut("c19-one-word-reused", "C19",
+    "fill_random draws one 64-bit word and reuses it for every word of the table",
+    ("src/operations.rs",
+     "    for t in table {\n        *t = rand::thread_rng().next_u64() & num_vars_mask(num_vars);",
+     "    let w = rand::thread_rng().next_u64();\n    for t in table {\n        *t = w & num_vars_mask(num_vars);"))
+mut("c19-constant-seed-per-call", "C19",
+    "fill_random re-seeds a generator with a constant on every call",
+    ("src/operations.rs",
+     "    use rand::RngCore;\n    for t in table {\n        *t = rand::thread_rng().next_u64() & num_vars_mask(num_vars);",
+     "    use rand::RngCore;\n    use rand::SeedableRng;\n    let mut rng = rand::rngs::StdRng::seed_from_u64(0x5eed + table.len() as u64);\n    for t in table {\n        *t = rng.next_u64() & num_vars_mask(num_vars);"))
+mut("c19-constant-seed-per-thread", "C19",
+    "fill_random uses a thread-local generator seeded with the same constant in every thread",
+    ("src/operations.rs",
+     "    use rand::RngCore;\n    for t in table {\n        *t = rand::thread_rng().next_u64() & num_vars_mask(num_vars);\n    }",
+     "    use rand::RngCore;\n    use rand::SeedableRng;\n    thread_local! {\n        static LOCAL: std::cell::RefCell<rand::rngs::StdRng> = std::cell::RefCell::new(rand::rngs::StdRng::seed_from_u64(42));\n    }\n    for t in table {\n        *t = LOCAL.with(|r| r.borrow_mut().next_u64()) & num_vars_mask(num_vars);\n    }"))
+mut("c19-top-bit-never-set", "C19",
+    "fill_random shifts the random word right by one (assignment 63 of every word is always false)",
+    ("src/operations.rs",
+     "        *t = rand::thread_rng().next_u64() & num_vars_mask(num_vars);",
+     "        *t = (rand::thread_rng().next_u64() >> 1) & num_vars_mask(num_vars);"))
